@@ -290,6 +290,14 @@ class Mat(Obj):
                     raise IndexOut(i, len(self.rows), node)
             return Mat([self.rows[i] for i in idx])
         ncols = len(self.rows[0]) if self.rows else 0
+        if isinstance(idx, tuple) and len(idx) == 2 and isinstance(idx[0], Vec) and isinstance(idx[1], Vec) \
+                and len(idx[0].vals) == len(idx[1].vals) and all(isinstance(i, int) and not isinstance(i, bool) for i in idx[0].vals + idx[1].vals):
+            for i, j in zip(idx[0].vals, idx[1].vals):
+                if not (0 <= i < len(self.rows) and 0 <= j < ncols):
+                    raise IndexOut((i, j), len(self.rows), node)
+            return Vec([self.rows[i][j] for i, j in zip(idx[0].vals, idx[1].vals)])       # fancy indexing copies
+        if isinstance(idx, Vec) and idx.vals and all(isinstance(x, bool) for x in idx.vals) and len(idx.vals) == len(self.rows):
+            return Mat([list(r) for r, m in zip(self.rows, idx.vals) if m])               # boolean row mask copies
         if isinstance(idx, slice):
             return Mat(self.rows[idx])              # a range of rows: the row lists are shared (view semantics)
         if isinstance(idx, tuple) and len(idx) == 2:
@@ -516,10 +524,15 @@ def _arith(op: ast.operator, a, b, node):
         return a + b
     if isinstance(a, (list, tuple)) and isinstance(op, ast.Mult) and isinstance(b, int) and not isinstance(b, bool):
         return a * b
+    if isinstance(a, bool) and isinstance(b, bool) and isinstance(op, (ast.BitOr, ast.BitAnd, ast.BitXor)):
+        return (a or b) if isinstance(op, ast.BitOr) else ((a and b) if isinstance(op, ast.BitAnd) else (a != b))
     if isinstance(a, bool):
         a = int(a)
     if isinstance(b, bool):
         b = int(b)
+    if isinstance(a, int) and isinstance(b, int) and isinstance(op, (ast.BitOr, ast.BitAnd, ast.BitXor, ast.LShift, ast.RShift)):
+        return {ast.BitOr: a | b, ast.BitAnd: a & b, ast.BitXor: a ^ b, ast.LShift: a << b if b >= 0 else 0,
+                ast.RShift: a >> b if b >= 0 else 0}[type(op)]
     if not (_num(a) and _num(b)):
         raise Unsupported(f"arithmetic on {type(a).__name__}/{type(b).__name__}", node)
     if isinstance(op, ast.Add):
@@ -530,13 +543,17 @@ def _arith(op: ast.operator, a, b, node):
         return a * b
     if isinstance(op, ast.FloorDiv):
         if b == 0:
-            raise Unsupported("division by zero", node)
+            raise AbsRaise("ZeroDivisionError", node)
         return a // b
     if isinstance(op, ast.Div):
         if b == 0:
-            raise Unsupported("division by zero", node)
-        return Fraction(a) / Fraction(b) if isinstance(a, int) and isinstance(b, int) else a / b
+            raise AbsRaise("ZeroDivisionError", node)
+        if isinstance(a, Fraction) or isinstance(b, Fraction):
+            return Fraction(a) / Fraction(b)
+        return a / b            # Python semantics: true division of ints gives the correctly rounded float
     if isinstance(op, ast.Mod):
+        if b == 0:
+            raise AbsRaise("ZeroDivisionError", node)
         return a % b
     if isinstance(op, ast.Pow):
         return a ** b
@@ -869,6 +886,13 @@ class Evaluator:
             return -v
         if isinstance(n.op, ast.UAdd):
             return v
+        if isinstance(n.op, ast.Invert):
+            if isinstance(v, Vec) and all(isinstance(x, bool) for x in v.vals):
+                return Vec([not x for x in v.vals])          # numpy: ~ on a boolean array
+            if isinstance(v, Mat) and all(isinstance(x, bool) for r in v.rows for x in r):
+                return Mat([[not x for x in r] for r in v.rows])
+            if isinstance(v, int) and not isinstance(v, bool):
+                return ~v
         raise Unsupported("unary operator", n)
 
     def truth(self, v, node=None) -> bool:
